@@ -105,7 +105,7 @@ def families(tier):
         names = ['A', 'B'] if cb == 'B' else ['A']
         copt = {} if tc is None else {'timeout': tc}
         hs = [dict(bus='A', pat='P', name='hp', prog=[('disp', cb, 'C', 'await', copt), ('pause',), ('pause',)]), dict(bus=cb, pat='C', name='hc1', prog=[('pause',), ('ret', 1)]),
-              dict(bus=cb, pat='C', name='hc2', prog=[('pause',), ('ret', 2)])]
+              dict(bus=cb, pat='C', name='hc2', prog=[('guarded_pause', 0.3), ('ret', 2)] if tc is None else [('pause',), ('ret', 2)])]
         for b in names:
             hs.append(dict(bus=b, pat='X', name='hs' + b, prog=[('ret', 0)]))
         main = [('disp', 'A', 'P', 'ff', {'timeout': tp}), ('pause',)] + [('disp', b, 'X', 'ff') for b in names] + [('idle', b) for b in names]
@@ -173,7 +173,7 @@ def oracle(spec, res):
             for who2, d2 in enclosing_who:
                 if abs(ex0[1] - d2) <= EPS:
                     e2 = exit_rec.get(who2)
-                    if e2 is None or e2[5] != 'cancelled' or abs(e2[1] - d2) > EPS:
+                    if e2 is None or e2[5] != 'cancelled' or not (-EPS <= e2[1] - d2 <= 0.3 * sum(1 for r in res['log'] if r[2] == 'cleanup-begin') + EPS):
                         out.append(V('handler_survived_its_own_deadline', f'{who} was cancelled at {ex0[1]} by the deadline of {who2}, but {who2} itself ended {e2[5] if e2 else "never"} at {e2[1] if e2 else None}',
                                      inline_await=inline))
         ex = exit_rec.get(who)
@@ -198,13 +198,15 @@ def oracle(spec, res):
                 out.append(V('handler_not_cancelled_at_deadline', f'{who} entered at {t0}, timeout {to}, still running at {end_t}', inline_await=inline))
             continue
         if ex[5] == 'cancelled':
-            ok = [d for d in ([own_deadline] if own_deadline is not None else []) + enclosing if abs(ex[1] - d) <= EPS]
+            # a cancellation is delivered only after the clean-up (async finally) of handlers that were interrupted with it has finished: allow for that
+            slack = sum(0.3 for r in res['log'] if r[2] == 'cleanup-begin' and r[1] <= ex[1] + EPS)
+            ok = [d for d in ([own_deadline] if own_deadline is not None else []) + enclosing if -EPS <= ex[1] - d <= slack + EPS]
             if not ok:
                 out.append(V('cancelled_at_wrong_time', f'{who} entered {t0} cancelled at {ex[1]}, deadlines own={own_deadline} enclosing={enclosing}'))
             later = [r for r in res['log'] if r[0] > ex[0] and r[2] in ('resumed', 'dispatch', 'await-begin', 'await-end') and r[3] == who]
             if later:
                 out.append(V('cancelled_handler_kept_running', f'{who}: {later[:2]}'))
-            if own_deadline is not None and abs(ex[1] - own_deadline) <= EPS and not any(abs(ex[1] - d) <= EPS for d in enclosing):
+            if own_deadline is not None and -EPS <= ex[1] - own_deadline <= slack + EPS and not any(-EPS <= ex[1] - d <= slack + EPS for d in enclosing):
                 # (when an enclosing handler's deadline falls on the same instant either of them may have fired first: not judged)
                 # its result must be a TimeoutError error; the remaining handlers of the event must still run
                 fe = res['final']['events'].get(ev, {})
